@@ -234,9 +234,8 @@ Conversion<Unit::EnergyFlux, Unit::EnergyFlux::InchPoundPerSquareInchPerSecond>:
 }
 
 template <typename NumericType>
-inline const std::
-    map<Unit::EnergyFlux, std::function<void(NumericType* values, const std::size_t size)>>
-        MapOfConversionsFromStandard<Unit::EnergyFlux, NumericType>{
+inline const ConversionTable<Unit::EnergyFlux, NumericType>
+    MapOfConversionsFromStandard<Unit::EnergyFlux, NumericType>{
           {Unit::EnergyFlux::WattPerSquareMetre,
            Conversions<Unit::EnergyFlux, Unit::EnergyFlux::WattPerSquareMetre>::
                FromStandard<NumericType>},
@@ -252,9 +251,8 @@ inline const std::
 };
 
 template <typename NumericType>
-inline const std::
-    map<Unit::EnergyFlux, std::function<void(NumericType* const values, const std::size_t size)>>
-        MapOfConversionsToStandard<Unit::EnergyFlux, NumericType>{
+inline const ConversionTable<Unit::EnergyFlux, NumericType>
+    MapOfConversionsToStandard<Unit::EnergyFlux, NumericType>{
           {Unit::EnergyFlux::WattPerSquareMetre,
            Conversions<Unit::EnergyFlux, Unit::EnergyFlux::WattPerSquareMetre>::
                ToStandard<NumericType>},
